@@ -218,6 +218,24 @@ def ctor_cases(ctx, cname, k, K):
                              (cname, cn, dist, bad or 'holding the value'))
                 elif bad:
                     ctx.fail(cid, cname, 'invalid-member', P, '%s(%s) returned an object: %s' % (cname, cn, bad))
+            # the raw array as an OPERAND of a pose object (NumPy defers array <op> pose to the reflected methods): whatever comes back, it is
+            # not a pose object holding the non-member (an exception, or a plain array, are both fine)
+            if dist > BAND:
+                import operator
+                for on, of in (('*', operator.mul), ('/', operator.truediv), ('@', operator.matmul), ('+', operator.add), ('-', operator.sub)):
+                    for side in ('array op pose', 'pose op array'):
+                        for nv in (1, 2):
+                            cid = 'C07/%s/%s/%s/k=%s/operand/%s/%s/n=%d' % (cname, gn, dn, kk, on, side.replace(' ', '-'), nv)
+                            if not ctx.want(cid):
+                                continue
+                            ctx.case(cid, key=cid)
+                            X = C([good.copy() for _ in range(nv)])
+                            ok, r = call(of, B.copy(), X) if side.startswith('array') else call(of, X, B.copy())
+                            if ok and hasattr(r, 'data') and isinstance(getattr(r, 'data'), list) and type(r).__module__.startswith('spatialmath'):
+                                bad = inspect_object(r, shape, kind, type(r)) if type(r) is C else None
+                                if bad:
+                                    P = dict(cls=cname, g=gn.split('|')[0], defect=dn, container='operand', op=on)
+                                    ctx.fail(cid, cname, 'invalid-member', P, '%s with a value %.3g away from the group returned a %s: %s' % (side.replace('op', on), dist, cname, bad))
         # valid member in every container is accepted and stored intact
         for cn, mk in containers(good, M):
             if 'nested' in cn:
